@@ -18,7 +18,7 @@ def gen_cases(rng, tier):
     rng.next()
     cases = B.gen_ops_cases(rng, tier, 1500, 12000, refuse_sweep=True, steps=(4, 25))
     # every k for a few fixed growth-heavy histories
-    fam = U.family()
+    fam = U.family_ops()
     extra = []
     for j, shape in enumerate(fam):
         base = O.gen_history(rng, shape, 14, refuse=-1, flush=j % 2)
